@@ -61,6 +61,7 @@ void vf_sample_n (int maxn, const char *fmt, ...) __attribute__ ((format (printf
 void vf_inflight (const char *fmt, ...) __attribute__ ((format (printf, 1, 2)));
 void vf_case_desc (const char *fmt, ...) __attribute__ ((format (printf, 1, 2))); /* appended to violations */
 int  vf_violations_so_far (void);
+void vf_digest_line (long idx, uint64_t digest, const char *label);
 void vf_fatal (const char *fmt, ...) __attribute__ ((format (printf, 1, 2), noreturn)); /* harness failure: exit 2 */
 /* called by the PIXMAN_VERIF hooks inside the library */
 void _pixman_verif_fail (const char *what);
